@@ -378,6 +378,12 @@ def check_chunks(ctx, prog, m):
     ctx.evaluations += len(bad)
     ctx.check(not reads, 'C06.chunks', f['pq'], 'parse:no look-ahead or look-behind through the cursor', fwhere(f, reads[0]['l'] if reads else None), 'inside the loop the cursor is only stepped back by s--',
               'the loop reads the input through the cursor beyond the current byte (line %s): the decision depends on bytes of the same chunk that a different chunking delivers later (or earlier)' % (reads[0]['l'] if reads else ''))
+    # ... and nothing outside the loop looks at the chunk: what parse() does with the first bytes of a call (a signature skipped, a
+    # prefix tested) happens at every chunk start, i.e. depends on where the text was cut
+    loop_ids = set(id(w) for e in ir.stmt_exprs(loop) for w in walk_expr(e))
+    outside = [e for e in fn_exprs(f) if e.get('k') == 'var' and e.get('id') == cursor['id'] and id(e) not in loop_ids]
+    ctx.check(not outside, 'C06.chunks', f['pq'], 'parse:the chunk is only read by the byte loop', fwhere(f, outside[0]['l'] if outside else None), 'no use of the cursor outside the loop',
+              'parse() reads or moves its argument outside the byte loop (line %s): that code runs at the start of every chunk, so a text fed in pieces is treated differently from the same text fed whole' % (outside[0]['l'] if outside else ''))
     # variables read in the loop: members, per-iteration locals, c
     inner = set(v['id'] for s_ in ir.walk_stmts(loop['body']) if s_.get('k') == 'decl' for v in s_['vars'])
     inner.add(loop['cv']['id'])
